@@ -14,6 +14,9 @@ def run(ctx):
     codec.name(ctx)
     ca.claim_bcast(ctx, "J1939_21")
     ca.claim_bcast(ctx, "J1939_22")
+    ctx.rule("R-CA-LOOPS", "the loops handing claims to the CAs serve every CA (no early exit)", floor=4)
+    ca.ca_loops(ctx, "J1939_21")
+    ca.ca_loops(ctx, "J1939_22")
     ca.claim_timer(ctx)
     ca.claim_only(ctx)
     return "J1939-81 decision table, comparison direction, broadcast and veto-timer shape of the claim procedure"
